@@ -18,6 +18,7 @@ type Features struct {
 	WordAnchors bool
 	CapBias     bool // C02: prefer captures under or / optional loops
 	Wide        bool // invariant-only constructs: whole *, named loops, empty literals, regex
+	NamedLoops  bool // named loops (nested variable maps); captures inside them are never back-referenced
 	NoNot       bool
 }
 
@@ -34,6 +35,7 @@ type gctx struct {
 	guarded  bool
 	allowDef bool
 	loopProd int // product of loop bounds so far (keeps unrolled code small)
+	inNamed  int // depth of enclosing named loops
 }
 
 var litAlphabet = []string{"a", "b", "ab", "ba", "aa", "c", "A", "0", " ", "\n", "_", "abc", "-", "7"}
@@ -180,7 +182,20 @@ func (g *gctx) node(depth int) *Node {
 	case "loop":
 		n := &Node{K: KLoop}
 		g.loopShape(n)
-		named := g.f.Wide && n.Min != n.Max && rapid.IntRange(0, 3).Draw(g.t, "named") == 0
+		named := (g.f.Wide || g.f.NamedLoops) && n.Min != n.Max && rapid.IntRange(0, 3).Draw(g.t, "named") == 0
+		if g.f.NamedLoops && !g.f.Wide {
+			if g.inSub != "" {
+				named = false // keep named loops out of subroutine bodies in the model-based checks
+			}
+			if named {
+				// a named loop is not unrolled, so its zero-width guard also rejects an empty
+				// *mandatory* iteration (unnamed loops allow it): undocumented -> min 0 only
+				n.Min = 0
+				if n.Max == 0 {
+					n.Max = 1
+				}
+			}
+		}
 		saved, savedProd := g.allowDef, g.loopProd
 		if (n.Min > 0 && !named) || n.Max == 0 {
 			g.allowDef = false
@@ -195,7 +210,13 @@ func (g *gctx) node(depth int) *Node {
 			g.allowDef = saved && n.Max != 0
 		}
 		g.loopProd *= factor
+		if named {
+			g.inNamed++
+		}
 		n.Body = g.node(depth - 1)
+		if named {
+			g.inNamed--
+		}
 		g.allowDef, g.loopProd = saved, savedProd
 		if named {
 			n.Name = g.name("L")
@@ -211,19 +232,25 @@ func (g *gctx) node(depth int) *Node {
 	case "cap":
 		name := g.name("v")
 		n := &Node{K: KCap, S: name, Body: g.node(depth - 1)}
-		g.caps = append(g.caps, name)
+		if g.inNamed == 0 {
+			g.caps = append(g.caps, name)
+		}
 		return n
 	case "capor":
 		// (X = v Y) or Z : a binding made on a path that may be abandoned
 		name := g.name("v")
 		capn := &Node{K: KCap, S: name, Body: g.node(depth - 1)}
 		first := &Node{K: KSeq, Kids: []*Node{capn, g.node(depth - 1)}}
-		g.caps = append(g.caps, name)
+		if g.inNamed == 0 {
+			g.caps = append(g.caps, name)
+		}
 		return &Node{K: KOr, Kids: []*Node{first, g.node(depth - 1)}}
 	case "caploop":
 		name := g.name("v")
 		capn := &Node{K: KCap, S: name, Body: g.node(depth - 1)}
-		g.caps = append(g.caps, name)
+		if g.inNamed == 0 {
+			g.caps = append(g.caps, name)
+		}
 		l := &Node{K: KLoop, Min: 0, Max: rapid.SampledFrom([]int{-1, 1, 2}).Draw(g.t, "clmax"), Fewest: rapid.IntRange(0, 3).Draw(g.t, "clfew") == 0,
 			Body: &Node{K: KSeq, Kids: []*Node{capn, g.node(depth - 1)}}}
 		return l
